@@ -521,6 +521,8 @@ def emplace_units(tier, seed):
     for g in range(EMPLACE_GROUPS):
         for std in stds:
             for fl in flavours:
+                if fl == "casan" and std == "c++20":
+                    continue  # clang 14 cannot compile libstdc++ 12's <ranges> as used by memory.hpp (a toolchain limitation, not the library's)
                 units.append(Unit("emplace", None, None, fl, {"seed": seed}, 100000, batch=100000, std=std, extra_defs=("VF_GROUP %d" % g,), label="emplace|group%d|%s|%s" % (g, std, fl)))
     return units
 
@@ -577,12 +579,12 @@ RACE_RULE = "per case 2 shared const vectors and 1 shared element; reader thread
 def race_units(tier, seed):
     configs = RACE_CONFIGS[:6] if tier == "quick" else RACE_CONFIGS
     units = []
-    threads, rounds, cases = (8, 4000, 6) if tier == "quick" else (16, 20000, 10)
+    threads, rounds, cases = (8, 4000, 6) if tier == "quick" else (16, 12000, 10)
     if os.environ.get("VERIF_CASES"):
         cases = int(os.environ["VERIF_CASES"])
     for cfg in configs:
         for fl in ["tsan", "ctsan"]:
-            units.append(Unit("race", cfg, "std", fl, {"seed": seed, "threads": threads, "rounds": rounds}, cases, batch=2 if tier == "quick" else 5, extra_defs=("VF_NO_LIBCALL 1",)))
+            units.append(Unit("race", cfg, "std", fl, {"seed": seed, "threads": threads, "rounds": rounds}, cases, batch=2, extra_defs=("VF_NO_LIBCALL 1",), timeout=1500))
     return units
 
 
